@@ -43,6 +43,13 @@ theorem eval_plain_no_internal (dot : DotCtx) (e : E) (h : Proofs.C14.PlainE e) 
 example : reduceMulTerms [] = .error (.internal "TypeError") := rfl
 example (b : List Term) : ∃ w, nestedProduct [] b = .error (.syntax w) := ⟨_, rfl⟩
 
+/-- C14.4  An operator disabled by the parser's feature flags never appears in a syntax tree the
+shunting-yard returns — for every token list and every operator table; with C01.1 (the generated
+table carries the flags) this is "operators disabled by parser feature flags are always rejected". -/
+theorem disabled_never_used (tab : OpTable) (ts : List Tok) (a : Ast)
+    (h : tokensToAst tab ts = .ok (some a)) : Proofs.C14.noDis a = true :=
+  Proofs.C14.disabled_never_used tab ts a h
+
 private theorem sanitize_err (norm : List Char → Except PyErr (List Char)) :
     ∀ (ts : List Tok) (e : PyErr), sanitizeTokens norm ts = .error e →
       ∃ t ∈ ts, t.kind = some .python ∧ norm t.text = .error e := by
